@@ -388,12 +388,12 @@ def driver_simulation(ctx, g, rid='R9.5'):
     n = 0
     for cl, o, c_ in kinds:
         for inner, side in ((['m', 'x'], 'left'), (['x', 'm'], 'right'), (['x', 'm', 'x'], None), (['m'], 'both')):
-            for trailing in (False, True):
+            for trailing in ('', 'wG', 'wGwG', 'G', 'wGG'):
                 for pname, post in posts.items():
                     opener, closer = leaf(*o), leaf(*c_)
                     kids = [opener] + [leaf(OPR, '::') if k == 'm' else leaf(NAME, 'x') for k in inner] + [closer]
-                    if trailing:
-                        kids += [leaf(WSP, ' '), group(comment, [leaf(CMT, '/*c*/')])]
+                    # comments attached behind the closing token by align_comments: one or several groups, with or without blanks
+                    kids += [leaf(WSP, ' ') if k == 'w' else group(comment, [leaf(CMT, '/*c*/')]) for k in trailing]
                     grp = group(cl, kids)
                     st = group(stmt, [grp])
                     mid = next(k for k in kids if k.ttype is not None and k.value == '::')
